@@ -984,26 +984,39 @@ func c17NoRoomNeverTried(p *Prog, r *Report, rule string) {
 	info := fi.Pkg.TypesInfo
 	f := p.FlatInl(fi)
 	cons := kStoreSet + "#a-directory-without-free-space-is-never-tried"
-	var minObj types.Object
+	var dirObj types.Object
+	for _, body := range p.deepBodies(fi) {
+		for _, rs := range rangeLoops(body) {
+			if c, ok := ast.Unparen(rs.X).(*ast.CallExpr); ok && p.callIs(fi.Pkg, c, kDirsIterate) && rs.Key != nil {
+				dirObj = objOf(info, rs.Key)
+			}
+		}
+	}
+	var mins *placeSet
+	if dirObj != nil {
+		mins = minPlaces(f, dirObj)
+	}
+	if mins == nil || len(mins.keys) == 0 {
+		r.Undecided(rule, cons, p.pos(fi.Decl), "the variable remembering the free space of the failed attempt was not found")
+		return
+	}
+	// (the places that are plain variables, for the flag worlds of the guard)
+	minObjs := map[types.Object]bool{}
 	for _, n := range f.Nodes {
-		if as, ok := n.Ast.(*ast.AssignStmt); ok && len(as.Lhs) == len(as.Rhs) {
-			for i, rhs := range as.Rhs {
-				if sel, ok := ast.Unparen(rhs).(*ast.SelectorExpr); ok && sel.Sel.Name == "Free" {
-					if o := objOf(info, as.Lhs[i]); o != nil && as.Tok == token.ASSIGN {
-						minObj = o
+		if as, ok := n.Ast.(*ast.AssignStmt); ok {
+			for _, l := range as.Lhs {
+				if id, ok := ast.Unparen(l).(*ast.Ident); ok && mins.has(id) {
+					if o := objOf(info, id); o != nil {
+						minObjs[o] = true
 					}
 				}
 			}
 		}
 	}
-	if minObj == nil {
-		r.Undecided(rule, cons, p.pos(fi.Decl), "the variable remembering the free space of the failed attempt was not found")
-		return
-	}
 	stores := setOf(f.CallNodes(kContentStore))
 	found := false
 	for _, n := range f.Nodes {
-		if !n.IsCond || !usesObj(info, n.Ast, minObj) {
+		if !n.IsCond || !mins.mentions(n.Ast) {
 			continue
 		}
 		mentionsFree := false
@@ -1017,8 +1030,8 @@ func c17NoRoomNeverTried(p *Prog, r *Report, rule string) {
 			continue
 		}
 		found = true
-		for _, w := range boolWorlds(f, n.ID, n.Ast.(ast.Expr), map[types.Object]bool{minObj: true}) {
-			env := &Env{P: p, Pkg: fi.Pkg, Vars: map[types.Object]*Val{minObj: intVal(0)}}
+		for _, w := range boolWorlds(f, n.ID, n.Ast.(ast.Expr), minObjs) {
+			env := &Env{P: p, Pkg: fi.Pkg, Vars: map[types.Object]*Val{}}
 			desc := ""
 			for o, b := range w {
 				env.Vars[o] = boolVal(b)
@@ -1027,6 +1040,12 @@ func c17NoRoomNeverTried(p *Prog, r *Report, rule string) {
 			env.Hook = func(env *Env, e ast.Expr) (*Val, bool) {
 				if sel, ok := e.(*ast.SelectorExpr); ok && sel.Sel.Name == "Free" {
 					return intVal(0), true
+				}
+				switch e.(type) {
+				case *ast.Ident, *ast.SelectorExpr:
+					if mins.has(e) {
+						return intVal(0), true
+					}
 				}
 				return nil, false
 			}
